@@ -7,6 +7,9 @@ Base/FileRank.vos Base/FileRank.vok Base/FileRank.required_vos: Base/FileRank.v 
 Base/Geom.vo Base/Geom.glob Base/Geom.v.beautified Base/Geom.required_vo: Base/Geom.v Base/Bits.vo
 Base/Geom.vio: Base/Geom.v Base/Bits.vio
 Base/Geom.vos Base/Geom.vok Base/Geom.required_vos: Base/Geom.v Base/Bits.vos
+Base/NIter.vo Base/NIter.glob Base/NIter.v.beautified Base/NIter.required_vo: Base/NIter.v 
+Base/NIter.vio: Base/NIter.v 
+Base/NIter.vos Base/NIter.vok Base/NIter.required_vos: Base/NIter.v 
 Chess/Fen.vo Chess/Fen.glob Chess/Fen.v.beautified Chess/Fen.required_vo: Chess/Fen.v Chess/Rules.vo
 Chess/Fen.vio: Chess/Fen.v Chess/Rules.vio
 Chess/Fen.vos Chess/Fen.vok Chess/Fen.required_vos: Chess/Fen.v Chess/Rules.vos
@@ -40,6 +43,15 @@ Engine/Encoding.vos Engine/Encoding.vok Engine/Encoding.required_vos: Engine/Enc
 Engine/EncodingProofs.vo Engine/EncodingProofs.glob Engine/EncodingProofs.v.beautified Engine/EncodingProofs.required_vo: Engine/EncodingProofs.v Engine/Encoding.vo
 Engine/EncodingProofs.vio: Engine/EncodingProofs.v Engine/Encoding.vio
 Engine/EncodingProofs.vos Engine/EncodingProofs.vok Engine/EncodingProofs.required_vos: Engine/EncodingProofs.v Engine/Encoding.vos
+Engine/Game.vo Engine/Game.glob Engine/Game.v.beautified Engine/Game.required_vo: Engine/Game.v 
+Engine/Game.vio: Engine/Game.v 
+Engine/Game.vos Engine/Game.vok Engine/Game.required_vos: Engine/Game.v 
+Engine/KPK.vo Engine/KPK.glob Engine/KPK.v.beautified Engine/KPK.required_vo: Engine/KPK.v Base/Geom.vo Engine/Game.vo
+Engine/KPK.vio: Engine/KPK.v Base/Geom.vio Engine/Game.vio
+Engine/KPK.vos Engine/KPK.vok Engine/KPK.required_vos: Engine/KPK.v Base/Geom.vos Engine/Game.vos
+Engine/KPKRank.vo Engine/KPKRank.glob Engine/KPKRank.v.beautified Engine/KPKRank.required_vo: Engine/KPKRank.v 
+Engine/KPKRank.vio: Engine/KPKRank.v 
+Engine/KPKRank.vos Engine/KPKRank.vok Engine/KPKRank.required_vos: Engine/KPKRank.v 
 Engine/Magic.vo Engine/Magic.glob Engine/Magic.v.beautified Engine/Magic.required_vo: Engine/Magic.v Base/Geom.vo
 Engine/Magic.vio: Engine/Magic.v Base/Geom.vio
 Engine/Magic.vos Engine/Magic.vok Engine/Magic.required_vos: Engine/Magic.v Base/Geom.vos
@@ -61,6 +73,9 @@ Engine/RepAbs.vos Engine/RepAbs.vok Engine/RepAbs.required_vos: Engine/RepAbs.v 
 Engine/RepProofs.vo Engine/RepProofs.glob Engine/RepProofs.v.beautified Engine/RepProofs.required_vo: Engine/RepProofs.v Engine/PositionRep.vo Engine/EncodingProofs.vo
 Engine/RepProofs.vio: Engine/RepProofs.v Engine/PositionRep.vio Engine/EncodingProofs.vio
 Engine/RepProofs.vos Engine/RepProofs.vok Engine/RepProofs.required_vos: Engine/RepProofs.v Engine/PositionRep.vos Engine/EncodingProofs.vos
+Gen/BitbaseDump.vo Gen/BitbaseDump.glob Gen/BitbaseDump.v.beautified Gen/BitbaseDump.required_vo: Gen/BitbaseDump.v 
+Gen/BitbaseDump.vio: Gen/BitbaseDump.v 
+Gen/BitbaseDump.vos Gen/BitbaseDump.vok Gen/BitbaseDump.required_vos: Gen/BitbaseDump.v 
 Gen/MagicData.vo Gen/MagicData.glob Gen/MagicData.v.beautified Gen/MagicData.required_vo: Gen/MagicData.v 
 Gen/MagicData.vio: Gen/MagicData.v 
 Gen/MagicData.vos Gen/MagicData.vok Gen/MagicData.required_vos: Gen/MagicData.v 
@@ -100,6 +115,39 @@ Props/C11Sweep_R6.vos Props/C11Sweep_R6.vok Props/C11Sweep_R6.required_vos: Prop
 Props/C11Sweep_R7.vo Props/C11Sweep_R7.glob Props/C11Sweep_R7.v.beautified Props/C11Sweep_R7.required_vo: Props/C11Sweep_R7.v Engine/Magic.vo Gen/MagicData.vo
 Props/C11Sweep_R7.vio: Props/C11Sweep_R7.v Engine/Magic.vio Gen/MagicData.vio
 Props/C11Sweep_R7.vos Props/C11Sweep_R7.vok Props/C11Sweep_R7.required_vos: Props/C11Sweep_R7.v Engine/Magic.vos Gen/MagicData.vos
+Props/C12Cert_0.vo Props/C12Cert_0.glob Props/C12Cert_0.v.beautified Props/C12Cert_0.required_vo: Props/C12Cert_0.v Engine/KPK.vo Base/NIter.vo Props/C12Tables.vo Props/C12Defs.vo
+Props/C12Cert_0.vio: Props/C12Cert_0.v Engine/KPK.vio Base/NIter.vio Props/C12Tables.vio Props/C12Defs.vio
+Props/C12Cert_0.vos Props/C12Cert_0.vok Props/C12Cert_0.required_vos: Props/C12Cert_0.v Engine/KPK.vos Base/NIter.vos Props/C12Tables.vos Props/C12Defs.vos
+Props/C12Cert_1.vo Props/C12Cert_1.glob Props/C12Cert_1.v.beautified Props/C12Cert_1.required_vo: Props/C12Cert_1.v Engine/KPK.vo Base/NIter.vo Props/C12Tables.vo Props/C12Defs.vo
+Props/C12Cert_1.vio: Props/C12Cert_1.v Engine/KPK.vio Base/NIter.vio Props/C12Tables.vio Props/C12Defs.vio
+Props/C12Cert_1.vos Props/C12Cert_1.vok Props/C12Cert_1.required_vos: Props/C12Cert_1.v Engine/KPK.vos Base/NIter.vos Props/C12Tables.vos Props/C12Defs.vos
+Props/C12Cert_2.vo Props/C12Cert_2.glob Props/C12Cert_2.v.beautified Props/C12Cert_2.required_vo: Props/C12Cert_2.v Engine/KPK.vo Base/NIter.vo Props/C12Tables.vo Props/C12Defs.vo
+Props/C12Cert_2.vio: Props/C12Cert_2.v Engine/KPK.vio Base/NIter.vio Props/C12Tables.vio Props/C12Defs.vio
+Props/C12Cert_2.vos Props/C12Cert_2.vok Props/C12Cert_2.required_vos: Props/C12Cert_2.v Engine/KPK.vos Base/NIter.vos Props/C12Tables.vos Props/C12Defs.vos
+Props/C12Cert_3.vo Props/C12Cert_3.glob Props/C12Cert_3.v.beautified Props/C12Cert_3.required_vo: Props/C12Cert_3.v Engine/KPK.vo Base/NIter.vo Props/C12Tables.vo Props/C12Defs.vo
+Props/C12Cert_3.vio: Props/C12Cert_3.v Engine/KPK.vio Base/NIter.vio Props/C12Tables.vio Props/C12Defs.vio
+Props/C12Cert_3.vos Props/C12Cert_3.vok Props/C12Cert_3.required_vos: Props/C12Cert_3.v Engine/KPK.vos Base/NIter.vos Props/C12Tables.vos Props/C12Defs.vos
+Props/C12Cert_4.vo Props/C12Cert_4.glob Props/C12Cert_4.v.beautified Props/C12Cert_4.required_vo: Props/C12Cert_4.v Engine/KPK.vo Base/NIter.vo Props/C12Tables.vo Props/C12Defs.vo
+Props/C12Cert_4.vio: Props/C12Cert_4.v Engine/KPK.vio Base/NIter.vio Props/C12Tables.vio Props/C12Defs.vio
+Props/C12Cert_4.vos Props/C12Cert_4.vok Props/C12Cert_4.required_vos: Props/C12Cert_4.v Engine/KPK.vos Base/NIter.vos Props/C12Tables.vos Props/C12Defs.vos
+Props/C12Cert_5.vo Props/C12Cert_5.glob Props/C12Cert_5.v.beautified Props/C12Cert_5.required_vo: Props/C12Cert_5.v Engine/KPK.vo Base/NIter.vo Props/C12Tables.vo Props/C12Defs.vo
+Props/C12Cert_5.vio: Props/C12Cert_5.v Engine/KPK.vio Base/NIter.vio Props/C12Tables.vio Props/C12Defs.vio
+Props/C12Cert_5.vos Props/C12Cert_5.vok Props/C12Cert_5.required_vos: Props/C12Cert_5.v Engine/KPK.vos Base/NIter.vos Props/C12Tables.vos Props/C12Defs.vos
+Props/C12Cert_6.vo Props/C12Cert_6.glob Props/C12Cert_6.v.beautified Props/C12Cert_6.required_vo: Props/C12Cert_6.v Engine/KPK.vo Base/NIter.vo Props/C12Tables.vo Props/C12Defs.vo
+Props/C12Cert_6.vio: Props/C12Cert_6.v Engine/KPK.vio Base/NIter.vio Props/C12Tables.vio Props/C12Defs.vio
+Props/C12Cert_6.vos Props/C12Cert_6.vok Props/C12Cert_6.required_vos: Props/C12Cert_6.v Engine/KPK.vos Base/NIter.vos Props/C12Tables.vos Props/C12Defs.vos
+Props/C12Cert_7.vo Props/C12Cert_7.glob Props/C12Cert_7.v.beautified Props/C12Cert_7.required_vo: Props/C12Cert_7.v Engine/KPK.vo Base/NIter.vo Props/C12Tables.vo Props/C12Defs.vo
+Props/C12Cert_7.vio: Props/C12Cert_7.v Engine/KPK.vio Base/NIter.vio Props/C12Tables.vio Props/C12Defs.vio
+Props/C12Cert_7.vos Props/C12Cert_7.vok Props/C12Cert_7.required_vos: Props/C12Cert_7.v Engine/KPK.vos Base/NIter.vos Props/C12Tables.vos Props/C12Defs.vos
+Props/C12Defs.vo Props/C12Defs.glob Props/C12Defs.v.beautified Props/C12Defs.required_vo: Props/C12Defs.v Engine/KPK.vo Base/NIter.vo Props/C12Tables.vo
+Props/C12Defs.vio: Props/C12Defs.v Engine/KPK.vio Base/NIter.vio Props/C12Tables.vio
+Props/C12Defs.vos Props/C12Defs.vok Props/C12Defs.required_vos: Props/C12Defs.v Engine/KPK.vos Base/NIter.vos Props/C12Tables.vos
+Props/C12Glue.vo Props/C12Glue.glob Props/C12Glue.v.beautified Props/C12Glue.required_vo: Props/C12Glue.v Engine/KPK.vo Base/NIter.vo Props/C12Tables.vo Props/C12Defs.vo Props/C12Cert_0.vo Props/C12Cert_1.vo Props/C12Cert_2.vo Props/C12Cert_3.vo Props/C12Cert_4.vo Props/C12Cert_5.vo Props/C12Cert_6.vo Props/C12Cert_7.vo
+Props/C12Glue.vio: Props/C12Glue.v Engine/KPK.vio Base/NIter.vio Props/C12Tables.vio Props/C12Defs.vio Props/C12Cert_0.vio Props/C12Cert_1.vio Props/C12Cert_2.vio Props/C12Cert_3.vio Props/C12Cert_4.vio Props/C12Cert_5.vio Props/C12Cert_6.vio Props/C12Cert_7.vio
+Props/C12Glue.vos Props/C12Glue.vok Props/C12Glue.required_vos: Props/C12Glue.v Engine/KPK.vos Base/NIter.vos Props/C12Tables.vos Props/C12Defs.vos Props/C12Cert_0.vos Props/C12Cert_1.vos Props/C12Cert_2.vos Props/C12Cert_3.vos Props/C12Cert_4.vos Props/C12Cert_5.vos Props/C12Cert_6.vos Props/C12Cert_7.vos
+Props/C12Tables.vo Props/C12Tables.glob Props/C12Tables.v.beautified Props/C12Tables.required_vo: Props/C12Tables.v Engine/KPK.vo Engine/KPKRank.vo Engine/Magic.vo Gen/BitbaseDump.vo Base/NIter.vo
+Props/C12Tables.vio: Props/C12Tables.v Engine/KPK.vio Engine/KPKRank.vio Engine/Magic.vio Gen/BitbaseDump.vio Base/NIter.vio
+Props/C12Tables.vos Props/C12Tables.vok Props/C12Tables.required_vos: Props/C12Tables.v Engine/KPK.vos Engine/KPKRank.vos Engine/Magic.vos Gen/BitbaseDump.vos Base/NIter.vos
 Props/Properties_C01.vo Props/Properties_C01.glob Props/Properties_C01.v.beautified Props/Properties_C01.required_vo: Props/Properties_C01.v Chess/Rules.vo Chess/RulesFacts.vo
 Props/Properties_C01.vio: Props/Properties_C01.v Chess/Rules.vio Chess/RulesFacts.vio
 Props/Properties_C01.vos Props/Properties_C01.vok Props/Properties_C01.required_vos: Props/Properties_C01.v Chess/Rules.vos Chess/RulesFacts.vos
@@ -118,6 +166,9 @@ Props/Properties_C07.vos Props/Properties_C07.vok Props/Properties_C07.required_
 Props/Properties_C11.vo Props/Properties_C11.glob Props/Properties_C11.v.beautified Props/Properties_C11.required_vo: Props/Properties_C11.v Engine/Magic.vo Engine/MagicProofs.vo Props/C11Glue.vo Gen/MagicData.vo Props/C11Sweep_R0.vo Props/C11Sweep_R1.vo Props/C11Sweep_R2.vo Props/C11Sweep_R3.vo Props/C11Sweep_R4.vo Props/C11Sweep_R5.vo Props/C11Sweep_R6.vo Props/C11Sweep_R7.vo Props/C11Sweep_B.vo
 Props/Properties_C11.vio: Props/Properties_C11.v Engine/Magic.vio Engine/MagicProofs.vio Props/C11Glue.vio Gen/MagicData.vio Props/C11Sweep_R0.vio Props/C11Sweep_R1.vio Props/C11Sweep_R2.vio Props/C11Sweep_R3.vio Props/C11Sweep_R4.vio Props/C11Sweep_R5.vio Props/C11Sweep_R6.vio Props/C11Sweep_R7.vio Props/C11Sweep_B.vio
 Props/Properties_C11.vos Props/Properties_C11.vok Props/Properties_C11.required_vos: Props/Properties_C11.v Engine/Magic.vos Engine/MagicProofs.vos Props/C11Glue.vos Gen/MagicData.vos Props/C11Sweep_R0.vos Props/C11Sweep_R1.vos Props/C11Sweep_R2.vos Props/C11Sweep_R3.vos Props/C11Sweep_R4.vos Props/C11Sweep_R5.vos Props/C11Sweep_R6.vos Props/C11Sweep_R7.vos Props/C11Sweep_B.vos
+Props/Properties_C12.vo Props/Properties_C12.glob Props/Properties_C12.v.beautified Props/Properties_C12.required_vo: Props/Properties_C12.v Engine/KPK.vo Engine/Magic.vo Base/NIter.vo Props/C12Tables.vo Props/C12Defs.vo Props/C12Glue.vo Gen/BitbaseDump.vo
+Props/Properties_C12.vio: Props/Properties_C12.v Engine/KPK.vio Engine/Magic.vio Base/NIter.vio Props/C12Tables.vio Props/C12Defs.vio Props/C12Glue.vio Gen/BitbaseDump.vio
+Props/Properties_C12.vos Props/Properties_C12.vok Props/Properties_C12.required_vos: Props/Properties_C12.v Engine/KPK.vos Engine/Magic.vos Base/NIter.vos Props/C12Tables.vos Props/C12Defs.vos Props/C12Glue.vos Gen/BitbaseDump.vos
 Props/Properties_C15.vo Props/Properties_C15.glob Props/Properties_C15.v.beautified Props/Properties_C15.required_vo: Props/Properties_C15.v Chess/Rules.vo Engine/Classify.vo
 Props/Properties_C15.vio: Props/Properties_C15.v Chess/Rules.vio Engine/Classify.vio
 Props/Properties_C15.vos Props/Properties_C15.vok Props/Properties_C15.required_vos: Props/Properties_C15.v Chess/Rules.vos Engine/Classify.vos
